@@ -93,7 +93,12 @@ def mk_measure(kind, rng, R, D, kappa=None, scale=None):
     if kind in ("measure", "diag_measure"):
         Lam = gen.spd_batch(rng, R, D, kappa, scale, diag=diag)
         omit = rng.random(2) < 0.15
-        nu = np.zeros((R, D)) if omit[0] else gen.vec(rng, R, D)
+        if gen.HOSTILE_SCALE or gen.HOSTILE_MEAN:
+            # information vector of a mean drawn on the scale of the standard deviations
+            nu0 = np.einsum("rde,re->rd", Lam, gen.mean_vec(rng, R, D, orc.inv(Lam)))
+        else:
+            nu0 = gen.vec(rng, R, D)
+        nu = np.zeros((R, D)) if omit[0] else nu0
         lb = np.zeros(R) if omit[1] else gen.vec(rng, R)
         cls = L.measure.GaussianDiagMeasure if diag else L.measure.GaussianMeasure
         kw = {"Lambda": J(Lam)}
@@ -106,7 +111,7 @@ def mk_measure(kind, rng, R, D, kappa=None, scale=None):
         return obj, Truth(Lambda=Lam, nu=nu, ln_beta=lb, mu=mu, Sigma=Sig)
     if kind in ("pdf", "diag_pdf"):
         Sig = gen.spd_batch(rng, R, D, kappa, scale, diag=diag)
-        mu = gen.vec(rng, R, D)
+        mu = gen.mean_vec(rng, R, D, Sig)
         cls = L.pdf.GaussianDiagPDF if diag else L.pdf.GaussianPDF
         # every accepted constructor argument combination is a legitimate way to build it
         how = int(rng.integers(0, 3))
